@@ -180,4 +180,19 @@ Section EquivFilter.
     apply (guarded_elim (filter_next_at cfg k i s) _ _ Hfuel).
     rewrite loop_equivF by lia. rewrite after_is_lift. reflexivity.
   Qed.
+  (* DrainFilter::size_hint: `(0, Some(self.old_len - self.pos))` -- on an iterator whose cursor has not
+     passed the old length (FilterAt.v: always so on a well-formed iterator) the checked subtraction is
+     the plain difference that Run.v reports *)
+  Definition run_filter_hint (i : nat) (s : state) : AnsM :=
+    @eval_fn mfail state cfg NOF P FUEL drain_filter__DrainFilter__size_hint_ast [fiter_val i] s.
+  Lemma filter_size_hint_equiv i s f :
+    filter_of i s = (Val f, s) -> f_pos f <= f_old f ->
+    run_filter_hint i s = (Norm (VTuple [VInt 0; VCtor "Some" [VInt (f_old f - f_pos f)]]), s).
+  Proof.
+    intros Hf Hle. destruct f as [fv fo fn fp fk fsc]. cbn [f_old f_pos] in *.
+    unfold run_filter_hint, eval_fn. evf. red1.
+    rewrite !Hf. red1.
+    assert (E : (0 <=? fo - fp) = true) by (apply Z.leb_le; lia).
+    repeat (rewrite ?Hf, ?E; red1). reflexivity.
+  Qed.
 End EquivFilter.
